@@ -74,20 +74,30 @@ def run(scn: Dict[str, Any]) -> UdpRun:
         sim.net.rxq_limit = cfg.get("rxq_limit", 64)
         sim.net_arrival_count = lambda: len(sim.net.arrival_order)
 
-        def on_device(dev):
-            n = len(out.callbacks) + 1
-            rec = {"n": n, "seq": sim.seq, "mono": sim.mono_us, "dev": summarize_device(dev),
-                   "taken": len(sim.net.taken), "arrived": sim.net_arrival_count(), "running": None}
-            out.callbacks.append(rec)
-            sim.rec("callback", n, rec["dev"].get("device_id"))
-            sim.mark("cb", rec["dev"].get("cls", "?"))
-            if n in raise_on:
-                sim.fire("cb_raise")
-                raise CallbackError("callback %d failed" % n)
+        def make_callback(bidx):
+            def on_device(dev):
+                n = len(out.callbacks) + 1
+                rec = {"n": n, "seq": sim.seq, "mono": sim.mono_us, "dev": summarize_device(dev), "bridge": bidx,
+                       "taken": len(sim.net.taken), "arrived": sim.net_arrival_count(), "running": None}
+                out.callbacks.append(rec)
+                sim.rec("callback", n, rec["dev"].get("device_id"), bidx)
+                sim.mark("cb", rec["dev"].get("cls", "?"))
+                if n in raise_on:
+                    sim.fire("cb_raise")
+                    raise CallbackError("callback %d failed" % n)
+            return on_device
 
-        ports = cfg.get("ports")
-        bridge = SwitcherBridge(on_device, list(ports)) if ports is not None else SwitcherBridge(on_device)
-        out.ports = list(ports) if ports is not None else [20002, 10002, 20003, 10003]
+        # one bridge by default; several bridge objects in one process when the scenario says so
+        specs = cfg.get("bridges") or [{"ports": cfg.get("ports")}]
+        bridges = []
+        out.bridge_ports = []
+        for bidx, bs in enumerate(specs):
+            ports = bs.get("ports")
+            bridges.append(SwitcherBridge(make_callback(bidx), list(ports)) if ports is not None
+                           else SwitcherBridge(make_callback(bidx)))
+            out.bridge_ports.append(list(ports) if ports is not None else [20002, 10002, 20003, 10003])
+        bridge = bridges[0]
+        out.ports = out.bridge_ports[0]
         foreign: Dict[int, FakeSocket] = {}
         tap = _LogTap(out)
         lg = logging.getLogger("aioswitcher")
@@ -103,8 +113,14 @@ def run(scn: Dict[str, Any]) -> UdpRun:
                                  "deprecation": issubclass(category, (DeprecationWarning, PendingDeprecationWarning))})
             sim.rec("warning", category.__name__, str(message)[:60])
 
-        def held_ports():
-            return sorted(p for p in out.ports if any(h.owner == "app" for h in sim.net.udp_holders(p)))
+        def held_ports(bidx=0):
+            return sorted(p for p in set(out.bridge_ports[bidx]) if any(
+                h.owner == "app" and h.owner_id == ("bridge", bidx) for h in sim.net.udp_holders(p)))
+
+        def busy_for(bidx):
+            """Ports of bridge `bidx` that somebody else (a foreign socket or another bridge) holds right now."""
+            return sorted(p for p in set(out.bridge_ports[bidx]) if any(
+                not (h.owner == "app" and h.owner_id == ("bridge", bidx)) for h in sim.net.udp_holders(p)))
 
         out.running_samples = 0
         out.running_but_not_listening = []
@@ -112,10 +128,11 @@ def run(scn: Dict[str, Any]) -> UdpRun:
         def sample_invariant():
             # sampled at every loop iteration, also while start()/stop() are in progress
             out.running_samples += 1
-            if bridge.is_running:
-                held = held_ports()
-                if held != sorted(out.ports) and len(out.running_but_not_listening) < 3:
-                    out.running_but_not_listening.append({"seq": sim.seq, "held": held})
+            for bidx, b in enumerate(bridges):
+                if b.is_running:
+                    held = held_ports(bidx)
+                    if held != sorted(set(out.bridge_ports[bidx])) and len(out.running_but_not_listening) < 3:
+                        out.running_but_not_listening.append({"seq": sim.seq, "held": held, "bridge": bidx})
         sim.iteration_hooks.append(sample_invariant)
 
         async def settle():
@@ -175,22 +192,26 @@ def run(scn: Dict[str, Any]) -> UdpRun:
                 out.actions.append({"uid": st.get("uid"), "kind": kind, "port": st["port"]})
                 return
             # lifecycle actions
-            act = {"uid": st.get("uid"), "kind": kind, "seq0": sim.seq, "mono0": sim.mono_us, "foreign": sorted(foreign)}
-            sim.rec("action", kind, "invoke")
-            sim.mark("user", kind)
+            bidx = st.get("bridge", 0)
+            b = bridges[bidx]
+            act = {"uid": st.get("uid"), "kind": kind, "bridge": bidx, "seq0": sim.seq, "mono0": sim.mono_us,
+                   "foreign": busy_for(bidx)}
+            sim.rec("action", kind, bidx, "invoke")
+            sim.mark("user%d" % bidx, kind)
+            sim.current_owner = ("bridge", bidx)
             try:
                 if kind == "start":
-                    await bridge.start()
+                    await b.start()
                 elif kind == "stop":
-                    await bridge.stop()
+                    await b.stop()
                 elif kind == "aenter":
-                    await bridge.__aenter__()
+                    await b.__aenter__()
                 elif kind == "aexit":
                     if st.get("exc"):
                         e = BodyError("body failed")
-                        await bridge.__aexit__(BodyError, e, None)
+                        await b.__aexit__(BodyError, e, None)
                     else:
-                        await bridge.__aexit__(None, None, None)
+                        await b.__aexit__(None, None, None)
                 else:
                     raise ValueError("unknown udp step %r" % kind)
                 act["outcome"] = ("ok",)
@@ -198,16 +219,21 @@ def run(scn: Dict[str, Any]) -> UdpRun:
                 raise
             except BaseException as e:  # noqa
                 act["outcome"] = ("exc", type(e).__name__, str(e)[:120], [c.__name__ for c in type(e).__mro__])
+            finally:
+                sim.current_owner = None
             act["seq1"] = sim.seq
             act["mono1"] = sim.mono_us
             act["callbacks_at_return"] = len(out.callbacks)
-            act["running_at_return"] = bool(bridge.is_running)
-            act["held_at_return"] = held_ports()
+            act["running_at_return"] = bool(b.is_running)
+            act["held_at_return"] = held_ports(bidx)
             await settle()
-            act["running"] = bool(bridge.is_running)
-            act["held"] = held_ports()
+            act["running"] = bool(b.is_running)
+            act["held"] = held_ports(bidx)
+            # what the OTHER bridges look like after this action (an action on one object must not disturb another)
+            act["others"] = [{"bridge": k, "running": bool(ob.is_running), "held": held_ports(k)}
+                             for k, ob in enumerate(bridges) if k != bidx]
             act["callbacks_settled"] = len(out.callbacks)
-            sim.rec("action", kind, "return", act["outcome"][0], act["running"], tuple(act["held"]))
+            sim.rec("action", kind, bidx, "return", act["outcome"][0], act["running"], tuple(act["held"]))
             out.actions.append(act)
 
         async def main():
@@ -230,6 +256,7 @@ def run(scn: Dict[str, Any]) -> UdpRun:
             await settle()
             out.final_running = bool(bridge.is_running)
             out.final_held = held_ports()
+            out.final_state = [{"running": bool(ob.is_running), "held": held_ports(k)} for k, ob in enumerate(bridges)]
             out.final_callbacks = len(out.callbacks)
             # a last grace period: nothing may be delivered any more
             await asyncio.sleep(5.0)
